@@ -22,14 +22,14 @@ import rules_struct
 
 PROPS = {
     "C02": {
-        "rules": [rules_wt.run, rules_follow.make("R-HDR", "C02"), rules_follow.make("R-INIT", "C02"), rules_struct.freshid, rules_struct.hdrcount("C02"), rules_struct.hdrv3("C02"), rules_struct.parenttype("C02"), rules_entry.gstore, rules_struct.namelen("C02"), rules_layout.run("C02"), rules_entry.ctorvalues("C02"), rules_wt.reverse("C02"), rules_struct.fmtconst("C02"), rules_follow.make("R-MARK", "C02"), rules_follow.make("R-CTOR", "C02"), rules_struct.wholetable("C02")],
+        "rules": [rules_struct.stalechain("C02"), rules_mode.strictlist("C02"), rules_struct.selflink("C02"), rules_wt.run, rules_follow.make("R-HDR", "C02"), rules_follow.make("R-INIT", "C02"), rules_struct.freshid, rules_struct.hdrcount("C02"), rules_struct.hdrv3("C02"), rules_struct.parenttype("C02"), rules_entry.gstore, rules_struct.namelen("C02"), rules_layout.run("C02"), rules_entry.ctorvalues("C02"), rules_wt.reverse("C02"), rules_struct.fmtconst("C02"), rules_follow.make("R-MARK", "C02"), rules_follow.make("R-CTOR", "C02"), rules_struct.wholetable("C02")],
         "explanation": "R-WT: every store site to an in-memory mirror of on-disk state (cached FAT/DIFAT/DIFAT-sector list, MiniFAT and its start sector, directory entry table, sector count; enumerated automatically from MIR: &mut borrows of mirror fields, stores through dir_entry_mut, direct field stores) is paired in the same function with a file write of the same datum "
                        "(same value by provenance, or write_dir_entry/write_to/seek_within_dir_entry+write_le_u32 of the same entry id at the field's offset), either dominating the store or on every Ok path after it; six listed exceptions with reasons. "
                        "R-HDR: header counters (words 40/44/60/64/68/72) are rewritten in the same function that changes the chain they count, on every Ok path. R-INIT: every sector handed out by allocate_sector - reused from the free list or appended - is reset with the caller's initialiser before it is returned (a directory sector recycled without SectorInit::Dir would reopen as garbage entries).",
         "not_decided": "that the bytes reopen to the same state; that the right value is written; crash points inside an operation",
     },
     "C03": {
-        "rules": [rules_follow.make("R-MARK"), rules_follow.make("R-HDR", "C03"), rules_follow.make("R-BLANK"), rules_follow.make("R-INIT", "C03"), rules_own.make("C03"), rules_entry.gstore, rules_layout.run("C03"), rules_struct.cutoff, rules_struct.unit, rules_struct.freshid, rules_follow.make("R-FREEOLD", "C03"), rules_struct.hdrcount("C03"), rules_struct.hdrv3("C03"), rules_struct.parenttype("C03"), rules_struct.initkind("C03"), rules_struct.linkkeep("C03"), rules_struct.unlink("C03"), rules_struct.blankown("C03"), rules_struct.killread("C03"), rules_struct.ceil("C03"), rules_entry.slotreset("C03"), rules_guard.make("R-BEGINGUARD"), rules_follow.make("R-FREEREBUILD", "C03"), rules_struct.detach("C03"), rules_struct.namelen("C03"), rules_struct.freebeforeremove("C03"), rules_units.units("C03"), rules_struct.handon("C03"), rules_struct.slotid("C03"), rules_struct.keepcount("C03"), rules_follow.make("R-FREEALL", "C03"), rules_follow.make("R-CUTTAIL", "C03"), rules_entry.ctorvalues("C03"), rules_struct.fmtconst("C03"), rules_struct.fold("C03"), rules_struct.wholetable("C03"), rules_struct.handlekind("C03"), rules_wt.reverse("C03")],
+        "rules": [rules_follow.make("R-MARK"), rules_follow.make("R-HDR", "C03"), rules_follow.make("R-BLANK"), rules_follow.make("R-INIT", "C03"), rules_own.make("C03"), rules_entry.gstore, rules_layout.run("C03"), rules_struct.cutoff, rules_struct.unit, rules_struct.freshid, rules_follow.make("R-FREEOLD", "C03"), rules_struct.hdrcount("C03"), rules_struct.hdrv3("C03"), rules_struct.parenttype("C03"), rules_struct.initkind("C03"), rules_struct.linkkeep("C03"), rules_struct.unlink("C03"), rules_struct.blankown("C03"), rules_struct.killread("C03"), rules_struct.ceil("C03"), rules_entry.slotreset("C03"), rules_guard.make("R-BEGINGUARD"), rules_follow.make("R-FREEREBUILD", "C03"), rules_struct.detach("C03"), rules_struct.namelen("C03"), rules_struct.freebeforeremove("C03"), rules_units.units("C03"), rules_struct.handon("C03"), rules_struct.slotid("C03"), rules_struct.keepcount("C03"), rules_follow.make("R-FREEALL", "C03"), rules_follow.make("R-CUTTAIL", "C03"), rules_struct.stalechain("C03"), rules_struct.allblack("C03"), rules_struct.selflink("C03"), rules_entry.ctorvalues("C03"), rules_struct.fmtconst("C03"), rules_struct.fold("C03"), rules_struct.wholetable("C03"), rules_struct.handlekind("C03"), rules_wt.reverse("C03")],
         "explanation": "Format-maintenance obligations visible as code shape: R-MARK (FAT/DIFAT sectors marked as such; allocated cell END_OF_CHAIN before use; freed cells FREE), R-HDR (header counts follow the chains), "
                        "R-BLANK (a removed entry's slot is overwritten with DirEntry::unallocated() on disk), R-GSTORE (no CLSID/timestamps on streams: every store to those fields is dominated by a test excluding ObjType::Stream; only storages are stamped at creation), R-OWN (allocation protocol: who may change FAT cells / free lists / initialise sectors), R-LAYOUT (symbolic walk of DirEntry::read_from/write_to and Header::read_from/write_to in control-flow order: same widths, counts and fields at the same offsets, totals 128 and 512, in-place patch offsets 68/72/76 and 40/44/60/64/68/72/76 equal the derived field offsets).",
         "not_decided": "single ownership of sectors, no orphans, chain length vs stream size, sibling-tree order and colouring: invariants over the contents of FAT and directory across histories",
@@ -51,7 +51,7 @@ PROPS = {
         "assumptions": ["audited sink entries (rules/sinks.json) record a human judgement made once by reading the code; the analysis re-checks only that their required guards still dominate the sink"],
     },
     "C06": {
-        "rules": [rules_io.flushfirst, rules_io.window, rules_io.posdim, rules_io.poskeep, rules_struct.cutoff, rules_zero.run, rules_struct.ceil("C06"), rules_api.errkind("C06"), rules_io.buffull("C06"), rules_io.writeat("C06"), rules_struct.initkind("C06"), rules_sink.sink("read"), rules_units.units("C06"), rules_struct.seekend("C06"), rules_struct.seekbound("C06")],
+        "rules": [rules_io.dirtyrange("C06"), rules_struct.setlennoop("C06"), rules_io.flushfirst, rules_io.window, rules_io.posdim, rules_io.poskeep, rules_struct.cutoff, rules_zero.run, rules_struct.ceil("C06"), rules_api.errkind("C06"), rules_io.buffull("C06"), rules_io.writeat("C06"), rules_struct.initkind("C06"), rules_sink.sink("read"), rules_units.units("C06"), rules_struct.seekend("C06"), rules_struct.seekbound("C06")],
         "explanation": "Cache-protocol clauses of the hand-written stream buffer, decided as path properties over the MIR of every Stream method: "
                        "R-FLUSHFIRST (every window move - store to buf_offset_from_start, StreamBuffer::clear, refill_with - is preceded on every path by the ok successor of flush_changes, with no mark_modified in between) and "
                        "R-WINDOW (after the window offset is stored, every path to any return, error exits included, passes clear or a successful refill), R-POSDIM (every value stored as window offset or stream length is a stream position - old offset + buffer-relative amount, current_position(), or a validated absolute target - never a bare buffer cursor), R-ERRKIND rows (the five out-of-range seeks are InvalidInput).",
@@ -64,7 +64,7 @@ PROPS = {
         "not_decided": "that the bytes are zero and that the zero-filled range is exactly [old, new): values",
     },
     "C09": {
-        "rules": [rules_name.validname, rules_name.norm, rules_name.orient, rules_struct.unit, rules_struct.unlink("C09"), rules_struct.blankown("C09"), rules_struct.linkkeep("C09"), rules_struct.fold("C09"), rules_det.narrow_in("C09", ["internal::path::"], "the name validation / comparison functions"), rules_struct.namelen("C09"), rules_api.errkind("C09"), rules_name.normbody("C09"), rules_struct.namelimit("C09"), rules_struct.detach("C09"), rules_name.lookupexit("C09"), rules_struct.handon("C09"), rules_wt.reverse("C09"), rules_name.normuse("C09")],
+        "rules": [rules_sink.treeid_in("C09", "internal::directory::", "in the directory's tree code every entry whose links are read or written is reached through the walk of the same call: from ROOT, a parent found by lookup, a link compared with NO_STREAM, or a freshly allocated slot - not through an id remembered from an earlier call"), rules_name.oneorder("C09"), rules_name.validname, rules_name.norm, rules_name.orient, rules_struct.unit, rules_struct.unlink("C09"), rules_struct.blankown("C09"), rules_struct.linkkeep("C09"), rules_struct.fold("C09"), rules_det.narrow_in("C09", ["internal::path::"], "the name validation / comparison functions"), rules_struct.namelen("C09"), rules_api.errkind("C09"), rules_name.normbody("C09"), rules_struct.namelimit("C09"), rules_struct.detach("C09"), rules_name.lookupexit("C09"), rules_struct.handon("C09"), rules_wt.reverse("C09"), rules_name.normuse("C09")],
         "explanation": "R-VALIDNAME (must-pass-through, interprocedural): from every DirEntry::new call with a non-constant name, walking up the call graph along the name argument to the public methods, some function validates the name (ok successor of validate_name on data derived from the same parameter dominates the forwarding call; a completed validation loop counts) and no state mutation precedes that validation on the chain. "
                        "R-NORM: every API method's path parameter reaches only name_chain_from_path (or formatting / forwarding to another API method), and lookups/inserts/removals take names derived from its result. "
                        "R-ORIENT: all compare_names sites agree on orientation (sought name first; Less -> left_sibling, Greater -> right_sibling in both the walk and the link update; validate rejects exactly != Less for (left,node) and (node,right)); no other comparator touches entry names in the directory layer. "
@@ -91,7 +91,7 @@ PROPS = {
         "not_decided": "that the bytes returned equal the fault-free run (values); behaviour of std's read_exact/read_to_end themselves",
     },
     "C13": {
-        "rules": [rules_io.errdisc(["io_write", "io_flush", "io_seek"], "write"), rules_io.dirty, rules_io.flushreach, rules_follow.make("R-WBENTRY", "C13"), rules_wt.order, rules_follow.make("R-RETRY", "C13"), rules_follow.make("R-SETTER", "C13"), rules_entry.closurestore("C13"), rules_struct.seekend("C13")],
+        "rules": [rules_lock.reacquire("C13"), rules_io.errdisc(["io_write", "io_flush", "io_seek"], "write"), rules_io.dirty, rules_io.flushreach, rules_follow.make("R-WBENTRY", "C13"), rules_wt.order, rules_follow.make("R-RETRY", "C13"), rules_follow.make("R-SETTER", "C13"), rules_entry.closurestore("C13"), rules_struct.seekend("C13")],
         "explanation": "R-ERRDISC(write): no io::Result of a call with backend write/flush/seek effect is dropped (one listed exception: Drop for Stream). "
                        "R-DIRTY: typestate of the dirty marker Stream.flusher - on every path from the arm that took the marker to any return, either the ok successor of the write-back is passed or the marker is stored back; every Ok(n>0) path of Stream::write calls mark_modified. "
                        "R-FLUSHREACH: every Ok path of each link of the flush chain reaches <F as Write>::flush, and Stream::flush writes back first. R-WBENTRY: every Ok path of the flusher reaches write_data_to_stream, and every Ok path of write_data_to_stream / resize_stream rewrites the stream's directory entry (memory is updated before the file write, so only an unconditional rewrite lets a retried flush repair a failed one).",
@@ -104,14 +104,14 @@ PROPS = {
         "not_decided": "that file size is constant from the second repetition of any net-zero cycle (values of the free lists over histories); LIFO order; truncation of the file (the code has none)",
     },
     "C16": {
-        "rules": [rules_mode.run, rules_struct.sibflag("C16"), rules_mode.rawfield("C16"), rules_mode.builder("C16"), rules_mode.normapplied("C16"), rules_struct.wholetable("C16")],
+        "rules": [rules_mode.run, rules_mode.strictlist("C16"), rules_struct.sibflag("C16"), rules_mode.rawfield("C16"), rules_mode.builder("C16"), rules_mode.normapplied("C16"), rules_struct.wholetable("C16")],
         "explanation": "R-MODE over all is_strict() tests (19 call sites): S - the region of the CFG dominated by the strict edge of each mode test contains no store, no mutating call and no Ok return, only refusals of kind InvalidData; "
                        "P/N - the region dominated by the permissive edge is either a listed normaliser that only pops/truncates its listed vector (DIFAT zero-stripping, FAT tail stripping, MiniFAT truncation) or a canonicalising assignment nested inside a documented deviation test; no refusal is made only in permissive mode. "
                        "Deviation inventory: each of the 18 documented deviations is located (regexes over guard atoms) as a refusal with is_strict() on its path (or, for the zero-padded FAT, an unconditional refusal pre-empted by the permissive normaliser).",
         "not_decided": "that the permissive view of a damaged file equals the undamaged file's content (values); deviations combined with foreign layouts",
     },
     "C17": {
-        "rules": [rules_follow.make("R-SETTER", "C17"), rules_entry.gstore, rules_det.narrow, rules_layout.run("C17"), rules_entry.moveall, rules_entry.getter("C17"), rules_entry.closurestore("C17"), rules_api.errkind("C17"), rules_det.epochcentre("C17"), rules_entry.ctorvalues("C17"), rules_entry.setterpure("C17")],
+        "rules": [rules_det.tsident("C17"), rules_follow.make("R-SETTER", "C17"), rules_entry.gstore, rules_det.narrow, rules_layout.run("C17"), rules_entry.moveall, rules_entry.getter("C17"), rules_entry.closurestore("C17"), rules_api.errkind("C17"), rules_det.epochcentre("C17"), rules_entry.ctorvalues("C17"), rules_entry.setterpure("C17")],
         "explanation": "R-SETTER: every metadata setter reaches with_dir_entry_mut on its Ok path, which forwards the same id down to Directory::with_dir_entry_mut, which writes the same slot back (write_dir_entry(same id) -> seek(128*id) + dir_entries[id].write_to). "
                        "R-GSTORE: streams never receive a CLSID or timestamps (every store to those fields is dominated by a test excluding ObjType::Stream). "
                        "R-NARROW: the FILETIME<->SystemTime conversion is total and saturating (no narrowing integer cast unless interval evaluation shows it fits, no unchecked SystemTime/Duration arithmetic, no unwrap of a fallible time operation). R-LAYOUT: the directory-entry serialiser and parser agree field for field (clsid, state bits, both timestamps at the same offsets and widths). R-ERRKIND rows: CLSID on a stream is InvalidInput, setters on a missing path are NotFound.",
@@ -278,6 +278,21 @@ _ADDED8 = {
     "C17": " R-NARROW also decides the overflow sinks of the timestamp module (the conversion to and from FILETIME ticks saturates or checks, never wraps). R-GSTORE: the stamp is applied to storages but not to the root where the format excludes it. R-CTORVAL includes the colour field.",
 }
 for _pid, _txt in _ADDED8.items():
+    PROPS[_pid]["explanation"] = PROPS[_pid]["explanation"] + _txt
+
+
+_ADDED9 = {
+    "C02": " R-STALECHAIN: no sector count / length is read from a chain object after a set_len on it that may have cut the chain (the object keeps listing the old sectors). R-SELFLINK: a link word is never stored in the sector it names (`list.push(new); list[len - 1]` reads the new sector back). R-MODE.U: every refusal reached only under is_strict() is one of the documented deviations of rules/mode.json - a new strict-only condition is one the library's own images are not known to meet.",
+    "C03": " R-STALECHAIN, R-SELFLINK (see C02). R-ALLBLACK: no store of a colour other than Black into an allocated entry (the library never rotates or recolours, so an all-black tree is the only red-black tree it can maintain).",
+    "C06": " R-DIRTYRANGE: the write-back covers the whole window, or starts at a recorded bound that is updated from its own previous value (a running minimum). R-SETLENNOOP: Stream::set_len skips the resize only behind `size == self.total_len`.",
+    "C08": " R-ZERO also reports a zero fill whose end is capped by anything other than the new length and the sector boundary above the old one.",
+    "C09": " R-ONEORDER: every switch on an Ordering in the directory's tree walks tests the result of compare_names. R-TREEID: in the directory's tree code every entry whose links are read or written is reached through the walk of the same call, not through an id remembered from an earlier one.",
+    "C11": " R-SINK: an assertion is covered by the audit of its function only if the same thing was asserted when the audit was made (rules/sink_keys.json `panics`: the fields, constants and measures its own condition mentions).",
+    "C13": " R-LOCK.2 also runs here: a write-back error path that takes the lock it still holds never reports the error.",
+    "C16": " R-MODE.U (see C02).",
+    "C17": " R-TSIDENT: Timestamp::read_from returns Timestamp(word read) on every Ok path, Timestamp::write_to writes the word held.",
+}
+for _pid, _txt in _ADDED9.items():
     PROPS[_pid]["explanation"] = PROPS[_pid]["explanation"] + _txt
 
 
